@@ -64,6 +64,17 @@ CHECKS['C04'] = dict(
    note='Trusted: Coq kernel + vm_compute; Model/Spot.v (hand-written); harness/c04.py + driver.py (inert strategy attached). Exact arithmetic: inputs are '
         'short decimals / dyadic values for which Decimal(str(x)) arithmetic is exact (checked per observation); binary64 rounding of long expansions is not covered.',
    tech='Rocq proof: refinement to a reference account by invariant over all histories + exact model/implementation correspondence', ref='DESIGN.md section 6 (C04)')
+CHECKS['C03'] = dict(
+   text='Machine-checked refinement (exact rationals): for every wallet, leverage, fee, number of symbols sharing the wallet and every legal history of '
+        'submit/cancel/execute/price moves (any length) the hand-written model of FuturesExchange + Order + Position shows the reference average-cost margin '
+        'account\'s accept/reject decisions (rejected exactly when notional/leverage exceeds the available margin), wallet, available margin, position '
+        'size, average entry and unrealised PnL; the invariant is that the two margin tables are a permutation of the active non-reduce-only orders. The '
+        'position update is proved equal to the closing-part/opening-part average-cost fill; reduce-only fills never increase or flip; submit followed by '
+        'cancel restores the available margin exactly. The model is tied to the real objects after every operation and the reference account is evaluated '
+        'by Coq on the implementation\'s own observations.',
+   note='Trusted: Coq kernel + vm_compute; Model/Futures.v (hand-written); harness/c03.py + driver.py (inert strategy attached, mark prices set by the harness). '
+        'Theorems are exact-arithmetic; the implementation is compared up to a relative 1e-9 with decisions exact on histories whose decision margins exceed 1e-6.',
+   tech='Rocq proof: refinement to a reference margin account (permutation invariant over all histories) + model/implementation correspondence', ref='DESIGN.md section 6 (C03)')
 NA = {}
 def main():
     props = [json.loads(l)['id'] for l in open(f'{V}/properties.jsonl')]
